@@ -451,6 +451,24 @@ int main(int argc, char** argv) {
     if (!general_position(k.subj, k.clip, 3)) emitF("kf.not_general_position", "witness lost its margin");
     run_config(k, 2, 0, true, true);
   }
+  // known findings (genuine violations of the geometric part of C03 on degenerate rectilinear input: paths with zero-width
+  // sections / 180-degree spikes and coincident edges; found by the flat-spike families at the thorough budget, seed 3)
+  {
+    auto mk = [](std::initializer_list<int64_t> v) { Path64 p; for (auto it = v.begin(); it != v.end(); it += 2) p.emplace_back(*it, *(it + 1)); return p; };
+    Input k; k.cls = 4;
+    k.gen = "kf.rect_spikes.crossing_edges";      // Xor/EvenOdd: solution edges (15,-18)-(-6,-18) and (12,-21)-(12,-15) properly cross
+    k.subj = {mk({12, -18, 9, -18, -15, -18, -15, 18, 9, 18, 9, -18, 12, -18, 12, 21, -18, 21, -18, -21, 12, -21}),
+              mk({6, -6, 6, -15, -21, -15, -21, 0, -3, 0, -3, 9, -6, 9, -6, -18, 15, -18, 15, 24, 9, 24, 9, -6}),
+              mk({-9, 21, 3, 21, 3, -9, -9, -9})};
+    k.clip = {mk({-15, -18, 21, -18, 21, 12, -15, 12, -15, -15, -12, -15, -12, 9, 18, 9, 18, -15, -12, -15, -15, -15}),
+              mk({21, -9, 21, -6, -21, -6, -21, -15, -24, -15, -24, 12, -18, 12, -18, -9}),
+              mk({-15, -24, -15, -21, -15, 3, 21, 3, 21, -21, -15, -21, -15, -24, 24, -24, 24, 6, -18, 6, -18, -24})};
+    run_config(k, 4, 0, false, false);
+    k.gen = "kf.rect_spikes.lobes_of_opposite_orientation";   // Xor/NonZero: one solution path made of two lobes of opposite orientation touching at (4,2)
+    k.subj = {mk({0, 2, 5, 2, 5, 0, 3, 0, 3, 2}), mk({4, 3, 5, 3, 5, 2, 4, 2})};
+    k.clip = {mk({2, 2, 5, 2, 5, 4, 2, 4}), mk({1, 2, 5, 2, 5, 1, 1, 1})};
+    run_config(k, 4, 1, false, false);
+  }
   // known finding: signed overflow in TopX (called from DoHorizontal with a y outside the edge's range) for nearly
   // horizontal long edges at coordinates around 2^41; executed in a child process because UBSan stops the process
   {
